@@ -27,7 +27,7 @@ LEVEL_NOTE = "The valid region and sea cells are computed independently from the
 RULE = ("case = world (mask, flow, subgrid) x run (scheme, diffusion, release, IBM schedule, layout). Non-trivial: at least one move cancelled by land or one particle killed at the "
         "open boundary or one inactive particle held; distinct by case parameters.")
 MANDATORY = ["moved", "cancelled_by_land", "killed_at_boundary", "inactive_held", "diffusion_on", "scheme_EF", "scheme_RK2", "scheme_RK4",
-             "tracker_updates", "records_checked", "release_near_rim", "subgrid", "dense", "one_cell_channel", "release_event_adding_nobody"]
+             "tracker_updates", "records_checked", "release_near_rim", "subgrid", "dense", "one_cell_channel", "release_event_adding_nobody", "reversed_time"]
 ASSUMPTIONS = ["release positions in sea cells of the valid region (as the property quantifies)"]
 TIMEOUT = {"quick": 900, "thorough": 3400}
 
@@ -62,7 +62,7 @@ def gen_case(seed: int, idx: int) -> dict[str, Any]:
     return dict(idx=idx, imax=imax, jmax=jmax, subgrid=sub, land=land, mask_kind=mk, flow=flow, dt=dt, dx=dx,
                 scheme=["EF", "RK2", "RK4"][idx % 3], diffusion=float(rng.choice([0.0, 0.0, 20.0, 150.0])),
                 nsteps=int(rng.integers(12, 31)), nrel=int(rng.integers(12, 40)), layout="dense" if idx % 5 == 4 else "sparse",
-                deact_frac=float(rng.choice([0.0, 0.2])), kill_frac=float(rng.choice([0.0, 0.1])), cont=bool(rng.random() < 0.5))
+                deact_frac=float(rng.choice([0.0, 0.2])), kill_frac=float(rng.choice([0.0, 0.1])), cont=bool(rng.random() < 0.5), reversed=bool(idx % 4 == 3))
 
 
 def gen_cases(tier: str, seed: int) -> list[dict[str, Any]]:
@@ -80,7 +80,11 @@ def build(case: dict[str, Any]):
     xlo, xhi, ylo, yhi = i0 + 0.5, i1 - 1.5, j0 + 0.5, j1 - 1.5
     start = C.T0
     nsteps = case["nsteps"]
-    w = dict(imax=imax, jmax=jmax, N=3, t0=str(tadd(start, -dt)), frames=[0, (nsteps // 2 + 1) * dt, (nsteps + 3) * dt], files=[2, 1],
+    rev = bool(case.get("reversed"))
+    sg = -1 if rev else 1
+    fr_steps = [-1, nsteps // 2, nsteps + 2]  # frame positions on the simulation axis
+    phys = sorted(sg * f for f in fr_steps)
+    w = dict(imax=imax, jmax=jmax, N=3, t0=start, frames=[p_ * dt for p_ in phys], files=[2, 1],
              vel=dict(case["flow"]), mask=dict(kind="explicit", land=case["land"]), metric=dict(kind="uniform", dx=case["dx"], dy=case["dx"]),
              h=dict(kind="flat", h=60.0))
     rows = []
@@ -105,12 +109,12 @@ def build(case: dict[str, Any]):
         step = 0 if (not case["cont"] or len(rows) < case["nrel"] // 2) else int(rng.integers(0, max(1, nsteps - 2)))
         rows.append([step, x, y, float(rng.uniform(0, 50))])
     rows.sort(key=lambda r: r[0])
-    relrows = [[str(tadd(start, r[0] * dt)), 1, r[1], r[2], r[3]] for r in rows]
+    relrows = [[str(tadd(start, sg * r[0] * dt)), 1, r[1], r[2], r[3]] for r in rows]
     # release times at which every row has mult = 0 (a release event that adds nobody), spread over the run
     if case["idx"] % 2 == 0:
         for s_ in sorted({int(x) for x in rng.integers(1, max(2, nsteps - 1), size=4)}):
-            relrows.append([str(tadd(start, s_ * dt)), 0, 0.5 * (xlo + xhi), 0.5 * (ylo + yhi), 1.0])
-        relrows.sort(key=lambda r: r[0])
+            relrows.append([str(tadd(start, sg * s_ * dt)), 0, 0.5 * (xlo + xhi), 0.5 * (ylo + yhi), 1.0])
+        relrows.sort(key=lambda r: r[0], reverse=rev)
     npart = len(rows)
     deact: dict[str, list[int]] = {}
     kill: dict[str, list[int]] = {}
@@ -120,7 +124,7 @@ def build(case: dict[str, Any]):
     nk = int(case["kill_frac"] * npart)
     if nk:
         kill[str(int(rng.integers(1, 6)))] = [int(p) for p in rng.choice(npart, size=nk, replace=False)]
-    run = dict(start=start, stop=str(tadd(start, nsteps * dt)), dt=dt, advection=case["scheme"], diffusion=case["diffusion"], subgrid=case["subgrid"],
+    run = dict(start=start, stop=str(tadd(start, sg * nsteps * dt)), dt=dt, reversed=rev, advection=case["scheme"], diffusion=case["diffusion"], subgrid=case["subgrid"],
                release=dict(columns=["release_time", "mult", "X", "Y", "Z"], rows=relrows, header=True),
                ibm=dict(module=C.REC_IBM, kill=kill, deactivate=deact, log=False),
                output=dict(period=dt * 2, layout=case["layout"]))
@@ -300,6 +304,7 @@ def run_case(case: dict[str, Any], wd: Path) -> dict[str, Any]:
     sit["dense"] = int(case["layout"] == "dense")
     sit["one_cell_channel"] = int(case["mask_kind"] in (1, 3))
     sit["release_event_adding_nobody"] = int(case["idx"] % 2 == 0)
+    sit["reversed_time"] = int(bool(case.get("reversed")))
     if not res.ok:
         V.append(C.viol(f"run did not complete: {res.exc}", tb=res.tb[-1500:], **desc))
     else:
